@@ -35,6 +35,7 @@ from halmos.calldata import (
     get_abi,
     mk_calldata,
 )
+from halmos.console import console
 from halmos.constants import MAX_MEMORY_SIZE
 from halmos.exceptions import (
     FailCheatcode,
@@ -194,7 +195,11 @@ class Prank:
         """
 
         assert_address(to)
-        if self and to not in [halmos_cheat_code.address, hevm_cheat_code.address]:
+        if self and to not in [
+            halmos_cheat_code.address,
+            hevm_cheat_code.address,
+            console.address,
+        ]:
             result = self.active
             if not self.keep:
                 self.stopPrank()
